@@ -367,9 +367,11 @@ pub fn run(o: &Opts) -> Report {
     // (4) inverse transforms through their hooks against the specification's, every mode
     let n4 = if o.thorough() { 6000 } else { 800 };
     for i in 0..n4 {
-        let (w, h) = match i % 6 { 0 => (1u32, rng.range(1, 9) as u32), 1 => (rng.range(1, 12) as u32, 1u32), _ => (rng.range(1, 20) as u32, rng.range(1, 9) as u32) };
+        // every fifth case is wide with larger blocks (runs of 17+ pixels inside one block, several blocks of 32..512 pixels)
+        let wide = i % 5 == 4;
+        let (w, h) = if wide { (rng.range(17, 90) as u32, rng.range(2, 5) as u32) } else { match i % 6 { 0 => (1u32, rng.range(1, 9) as u32), 1 => (rng.range(1, 12) as u32, 1u32), _ => (rng.range(1, 20) as u32, rng.range(1, 9) as u32) } };
         let img: Vec<u8> = match rng.below(3) { 0 => rng.bytes((w * h * 4) as usize), 1 => (0..w * h * 4).map(|_| *rng.pick(&[0u8, 1, 2, 127, 128, 254, 255])).collect(), _ => (0..w * h * 4).map(|k| (k * 3) as u8 ^ rng.below(4) as u8).collect() };
-        let bits = rng.range(2, 4) as u8;
+        let bits = if wide { rng.range(2, 9) as u8 } else { rng.range(2, 4) as u8 };
         let sub = |v: u32| (v + (1 << bits) - 1) >> bits;
         let (kind, line, got): (&str, String, Result<Vec<u8>, String>) = match i % 4 {
             0 => {
